@@ -164,13 +164,14 @@ def build(tier):
                     'histogram_t::mean for int16 / double samples (int8 / int32 / int64 in the thorough tier): the accumulator of std::accumulate has type scalar_t (the type of init), starts at 0, every step of the fold adds the element CONVERTED to scalar_t (the extracted lambda, with CBMC\'s overflow / conversion obligations), the result is that sum divided by count; update_bin stores exactly this value',
                     'constructor histogram_t(begin, end, thresholds) (int32 samples; int8 / int16 / int64 / double thorough): establishes the representation invariant (values sorted, thresholds sorted and not NaN, at ghost indices, from std::sort\'s contract), owns the thresholds it was given, and calls update() INSIDE its precondition (update is replaced by its contract: every requires clause is an obligation at the call site); its postcondition is the partition / counting-rule clause of the property for thresholds given directly',
                     'make_from_thresholds (int64 samples; int16 / int32 / double thorough): constructs exactly one histogram over the WHOLE value list with the thresholds it was given, inside the constructor\'s precondition (constructor replaced by its contract)',
+                    'make_from_percentiles / make_from_ratios (thorough tier; int64 and double samples): the values and the parameter list are sorted first, percentile_sorted is called INSIDE its precondition (whole non-empty list, sorted values, percentage in [0, 100]), threshold i handed to the constructor is percentile_sorted(values, p_i) resp. min + r_i (max - min) with min / max the smallest / largest value (at a ghost position; operand order of the commutative + and * free), one threshold per parameter, and the constructor is called once, inside its precondition, on the WHOLE value list (`*--end; ++end` restores end)',
                     'the position->value lambdas of percentile_sorted (value stored at the position) and percentile (k-th smallest via nth_element)',
                     'median / median_sorted against the sorted-array reference: the middle order statistic for odd n, the mean of the two middle ORDER STATISTICS for even n; std::nth_element is given exactly its standard contract (nth is the order statistic, left part <=, right part >=, nothing about the order inside the parts), so `*std::prev(middle)` after one nth_element is refuted while `*std::max_element(begin, middle)` and the library\'s own two-call version are proved; std::prev / next / advance / distance on the pointer iterators',
                     'detail::percentile (all instantiations, now also those of the integer histograms): result is the sorted value at position p(n-1)/100 (midpoint when fractional), positions stay in [0, n-1] (over the reals, n <= 2^46); lemma: at p = 50 that rule is the median reference',
                     'bin(v) equals the counting rule #{j: t_j <= v} for every finite real v and every integer |v| <= 2^53, for every sorted threshold list of symbolic length'],
         'not_decided': ['float value of the bin means (rounding of the scalar_t fold; + and / are uninterpreted: the SHAPE sum/count is decided)',
-                        'make_from_percentiles / make_from_ratios: contracts are written (specs/C20/factory.h: percentile_sorted called inside its precondition, threshold_i = percentile_sorted(p_i) / min + r_i (max - min), constructor called on the whole list) but NOT wired: make_from_ratios dereferences the `begin` parameter while the block is owned by the ghost pointer (CBMC: a pointer known only through an equality has no points-to set) and the double-sample targets exceed 100 s of SAT time',
-                        'make_from_exponents (log / pow), make_equidistant_* (src/core/histogram.cpp)',
+                        'make_from_exponents (log / pow), make_equidistant_* (src/core/histogram.cpp), the (begin, end, bins) overloads of the factories that call them',
+                        'computed thresholds are not NaN (percentile_sorted / min + r (max - min) of finite values: float arithmetic is uninterpreted); the constructor\'s std::sort contract is assumed for them as for given thresholds',
                         'the percentile / percentile_sorted WRAPPERS (capture initialisers of the lambdas handed to detail::percentile) are composed by hand in the stubs of median / median_sorted (NV_MEDIAN_OF), not extracted',
                         'that the sorted values are a permutation of the input (std::sort\'s other clause; not used by any obligation)',
                         'x / 2 rewritten as 0.5 * x in the fractional percentile (exact in IEEE, different uninterpreted terms: would be a false alarm)'],
@@ -181,7 +182,8 @@ def build(tier):
                         'IEEE double treated as real for the percentile position arithmetic',
                         'std::upper_bound / lower_bound return the partition point of a partitioned range (assumed contract, stated at a ghost index; the partition precondition itself is now an obligation in update)',
                         'bin(v): thresholds are sorted and not NaN (established by the constructor: proved, see ctor_*) and counts.size == thresholds.size + 1 (established by update: proved)',
-                        'malloc succeeds in the tensor resize stubs'],
+                        'make_from_percentiles / make_from_ratios: every percentile lies in (0, 100) / every ratio in (0, 1) (the factories\' documented preconditions: their asserts), assumed for the cell at the ghost position after std::sort',
+                        'malloc succeeds in the tensor resize / construction stubs'],
         'trusted': [],
     }
 
